@@ -281,6 +281,13 @@ func (x *Exec) evalObj(obj types.Object, e ast.Expr, env *Env) Term {
 			return t
 		}
 	case *types.Var:
+		if x.cx.aliases != nil {
+			if tgt, isAlias := x.cx.aliases[o]; isAlias {
+				v := x.eval(tgt, env)
+				v.GoT = o.Type()
+				return v
+			}
+		}
 		if v, ok := env.vars[o]; ok {
 			if v.GoT == nil {
 				v.GoT = o.Type()
@@ -722,6 +729,10 @@ func (x *Exec) sliceFacts(r, base, lo Term) Term {
 	q := fmt.Sprintf("q!%d", x.W.nfresh)
 	qi := T(q, SInt)
 	x.W.Facts = append(x.W.Facts, fmt.Sprintf("(forall ((%s Int)) (! (= %s %s) :pattern (%s)))", q, x.W.SeqAt(c, qi).S, x.W.SeqAt(base, Arith("+", lo, qi)).S, x.W.SeqAt(c, qi).S))
+	if lo.S == "0" {
+		// s[:n] agrees with s on its first n elements: prefix folds coincide
+		x.prefixFacts(c, base, x.W.SeqLen(c))
+	}
 	return c
 }
 
